@@ -123,6 +123,7 @@ declare_class('tempfile:_TemporaryFileWrapper', fields={'name': 'Str'},
 declare_class('subprocess:Popen', fields={'returncode': 'Opt(Int)'})
 declare_class(XB, fields={'xmlsec': 'Str', '_xmlsec_delete_tmpfiles': 'Any'})
 ghost('proc_ran', ['Seq', 'Val'], 'Bool')       # a process was started with this argv and wrote this text to stderr
+ghost('proc_rc', ['Seq', 'Val', 'Val'], 'Bool')  # ... and ended with this return code (None: not known)
 ghost('popen_argv', ['Val'], 'Seq')
 ghost('content', ['Val'], 'Val')                # content of a temporary file by name (E-TMPFILE)
 axiom('tmpfile', 'E-TMPFILE', "forall(lambda c: implies(tmpfile(c) == tmpfile(c), content(tmpfile(c)) == c and is_str(tmpfile(c))), 'Val')")
@@ -139,7 +140,8 @@ contract('subprocess:Popen', trusted=True, params=['self', 'args', 'stderr', 'st
          ensures=['popen_argv(self) == seq(args)'], raises={'OSError': 'True'}, assumptions=['E-PROC'],
          note='E-PROC: the program may not be startable at all')
 contract('subprocess:Popen.communicate', trusted=True, params=['self'], returns='Tuple(Bytes, Bytes)',
-         ensures=['proc_ran(popen_argv(self), vstr(unutf8(result[1])))'], modifies=['self.returncode'],
+         ensures=['proc_ran(popen_argv(self), vstr(unutf8(result[1])))',
+                  'proc_rc(popen_argv(self), vstr(unutf8(result[1])), self.returncode)'], modifies=['self.returncode'],
          assumptions=['E-PROC'], note='E-PROC: any return code (or None), any stdout / stderr bytes')
 
 # E-XMLSEC (verify): an OK line from `xmlsec1 --verify --enabled-reference-uris empty,same-doc --pubkey-cert-<t> C
@@ -166,10 +168,14 @@ contract(XB + '._run_xmlsec',
          returns='Tuple(Str, Str, Bytes)',
          requires=['com_list != extra_args'],
          ensures=[('ran', "exists(lambda n: is_str(n) and proc_ran(old(seq(com_list)) + ['--output', n] + seq(extra_args), result[1]), 'Val')"),
-                  ('C20-validated', 'implies(truthy(validate_output), %s)' % OKLINE.replace('output', 'str_of(result[1])'))],
+                  ('C20-validated', 'implies(truthy(validate_output), %s)' % OKLINE.replace('output', 'str_of(result[1])')),
+                  # C20: a tool that was killed (negative return code) never yields a normal return
+                  ('C20-killed-tool-is-an-error',
+                   "exists(lambda n, rc: is_str(n) and proc_rc(old(seq(com_list)) + ['--output', n] + seq(extra_args), result[1], rc) "
+                   "and (rc is None or int_of(rc) >= 0), ['Val', 'Val'])")],
          raises={'XmlsecError': 'True', 'OSError': 'True', 'UnicodeDecodeError': 'True'},
          modifies=['list(com_list)'],
-         clauses_from={'C20': ['C20-validated', 'raises.XmlsecError']})
+         clauses_from={'C20': ['C20-validated', 'C20-killed-tool-is-an-error', 'raises.XmlsecError']})
 
 contract(XB + '.validate_signature',
          types={'signedtext': 'Union(Str, Bytes)', 'cert_file': 'Str', 'cert_type': 'Str', 'node_name': 'Str',
